@@ -139,6 +139,9 @@ fn cursors<'a>(case: &Case, files: &'a [Vec<u8>]) -> Result<Vec<ReaderCursor<Cur
     let mut v = Vec::new();
     for s in 0..case.masks.len() {
         let idx = (s * 16 + case.masks[s] as usize) * NCFG + case.cfgs[s] as usize;
+        if files[idx].is_empty() {
+            return Err("prerequisite: source file not produced by the writer".into());
+        }
         let r = Reader::new(Cursor::new(files[idx].as_slice())).map_err(|e| format!("source {s} does not open: {e}"))?;
         v.push(r.into_cursor().map_err(|e| e.to_string())?);
     }
@@ -151,7 +154,17 @@ pub fn build_files() -> Vec<Vec<u8>> {
         for mask in 0..16u8 {
             for c in 0..NCFG {
                 let (cfg, _) = source_cfg(c);
-                files.push(write_file(&cfg, &source_entries(s, mask, c)).expect("harness: cannot write a C06 source"));
+                // a source the writer cannot produce is C01/C09's business: the cases using it are
+                // skipped (counted as prerequisite failures), not judged
+                match write_file(&cfg, &source_entries(s, mask, c)) {
+                    Ok(b) => files.push(b),
+                    Err(e) => {
+                        if !files.iter().any(|f: &Vec<u8>| f.is_empty()) {
+                            println!("NOTE property=C06 prerequisite: the writer produced no source file for (source {s}, mask {mask}, cfg {c}): {e}");
+                        }
+                        files.push(Vec::new());
+                    }
+                }
             }
         }
     }
@@ -422,6 +435,7 @@ pub fn run(tier: Tier) -> i32 {
                     acc.sample(|| json!({"case": case, "keys_shared": shared}));
                 }
             }
+            Err(msg) if msg.contains("prerequisite: source file not produced") => acc.count("prerequisite_source_not_written", 1),
             Err(msg) => {
                 acc.hist("violation");
                 acc.violation(Violation {
